@@ -629,6 +629,52 @@ func callBuilder[B any](b B, name string, arg any) (B, bool) {
 	return b, true
 }
 
+// setFallback installs fb through the builder method `name` if there is one taking a function of the
+// shape (item, error) -> (value, error), where item and value may be typed any or flyt.Result.
+func setFallback[B any](b B, name string, fb func(any, error) (any, error)) (B, bool) {
+	m := reflect.ValueOf(b).MethodByName(name)
+	if !m.IsValid() || m.Type().NumIn() != 1 || m.Type().In(0).Kind() != reflect.Func {
+		return b, false
+	}
+	ft := m.Type().In(0)
+	errT := reflect.TypeOf((*error)(nil)).Elem()
+	resT := reflect.TypeOf(flyt.Result{})
+	anyT := reflect.TypeOf((*any)(nil)).Elem()
+	okT := func(t reflect.Type) bool { return t == resT || t == anyT }
+	if ft.NumIn() != 2 || ft.NumOut() != 2 || !okT(ft.In(0)) || !okT(ft.Out(0)) || ft.In(1) != errT || ft.Out(1) != errT {
+		return b, false
+	}
+	adapter := reflect.MakeFunc(ft, func(args []reflect.Value) []reflect.Value {
+		var inErr error
+		if !args[1].IsNil() {
+			inErr = args[1].Interface().(error)
+		}
+		v, err := fb(args[0].Interface(), inErr)
+		out0 := reflect.New(ft.Out(0)).Elem()
+		if ft.Out(0) == resT {
+			if r, isRes := v.(flyt.Result); isRes {
+				out0.Set(reflect.ValueOf(r))
+			} else {
+				out0.Set(reflect.ValueOf(flyt.NewResult(v)))
+			}
+		} else if v != nil {
+			out0.Set(reflect.ValueOf(v))
+		}
+		out1 := reflect.New(errT).Elem()
+		if err != nil {
+			out1.Set(reflect.ValueOf(err))
+		}
+		return []reflect.Value{out0, out1}
+	})
+	out := m.Call([]reflect.Value{adapter})
+	if len(out) == 1 {
+		if nb, ok := out[0].Interface().(B); ok {
+			return nb, true
+		}
+	}
+	return b, true
+}
+
 // intGetter / strGetter read a getter by name if the object has one (batch settings need not be
 // readable on a plain node's builder).
 func intGetter(obj any, name string) (int, bool) {
